@@ -165,6 +165,7 @@ def C04(prog: Program, run: Run, tier: str) -> None:
     run.add(extra.block_assembler(prog), "R-GUARDSEQ BlockAssembler indexes the request-relative window with full slices on non-spatial axes; reads each block through its own part of the 3-way intersection and writes through the window's part into a fill-initialised window")
     run.floor("R-API|", 20)
     run.add(round3.variable_locate_searches(prog), "R-GUARDSEQ variable tiling locates by searching its offsets")
+    run.add(round3.constructor_only_state(prog), "R-IMMUT tilings are built through __init__ only (no __new__ bypass, no slot stores elsewhere)")
     run.floor("R-AXIS|", 25)
 
 
